@@ -1178,3 +1178,47 @@ fn c18_stream_info_setters() {
     kani::cover!(!r1 && a > b);
     kani::cover!(!r2);
 }
+
+#[kani::proof]
+#[kani::unwind(8)]
+#[kani::stub(std::fmt::format, stub_format)]
+fn x18_fr0() {
+    let header = FrameHeader::from_specs(
+        BlockSizeSpec::ExtraTwoBytes(100),
+        ChannelAssignment::Independent(kani::any()),
+        SampleSizeSpec::B16,
+        SampleRateSpec::R44_1kHz,
+    );
+    let subs: [SubFrame; 0] = [];
+    let r = Frame::new(header, subs.into_iter());
+    kani::cover!(r.is_ok());
+}
+#[kani::proof]
+#[kani::unwind(8)]
+#[kani::stub(std::fmt::format, stub_format)]
+fn x18_fr1() {
+    let header = FrameHeader::from_specs(
+        BlockSizeSpec::ExtraTwoBytes(100),
+        ChannelAssignment::Independent(kani::any()),
+        SampleSizeSpec::B16,
+        SampleRateSpec::R44_1kHz,
+    );
+    let f = Frame::from_parts(header, Vec::new());
+    let r = f.verify();
+    kani::cover!(r.is_ok());
+}
+#[kani::proof]
+#[kani::unwind(8)]
+#[kani::stub(std::fmt::format, stub_format)]
+fn x18_fr2() {
+    let header = FrameHeader::from_specs(
+        BlockSizeSpec::ExtraTwoBytes(100),
+        ChannelAssignment::Independent(kani::any()),
+        SampleSizeSpec::B16,
+        SampleRateSpec::R44_1kHz,
+    );
+    let mut v: Vec<SubFrame> = Vec::with_capacity(2);
+    v.push(Constant::from_parts(101, 5, 16).into());
+    let r = header.channel_assignment().channels() == v.len();
+    kani::cover!(r);
+}
